@@ -217,7 +217,7 @@ func genC14SC(r *rng, n int, w *bufio.Writer) {
 			ans = "F"
 			note = "FIRST DIFFERENCE: " + res.mismatches[0] + "; " + note
 		}
-		fmt.Fprintf(w, "assert c14sc %d %d = %s ## %s\n", i, res.evals, ans, strings.ReplaceAll(note, "\n", "\\n"))
+		fmt.Fprintf(w, "assert c14sc %d %d %s = %s ## %s\n", i, res.evals, gfHash(res.desc), ans, strings.ReplaceAll(note, "\n", "\\n"))
 	}
 }
 
